@@ -53,6 +53,10 @@ def strategy(date, ctx):
         zero_other = draw(st.sampled_from([True, True, True, False]))
         wealth = draw(st.sampled_from([0.0, 0.0, 2000.0, 20000.0, 200000.0]))
         rent = draw(st.sampled_from([0.0, 350.0, 600.0, 950.0]))
+        others = [int(i) for i in adults if int(i) != who]
+        if others and draw(st.booleans()):
+            # a second earner with a fixed wage (e.g. the other needs unit of the household)
+            rent = (rent, int(draw(st.sampled_from(others))), draw(st.sampled_from([450.0, 800.0, 1000.0, 1200.0, 1600.0, 2400.0])))
         # one sweep in four runs over the *wealth* of the household (fixed wage): the wealth checks
         # of ALG II / Kinderzuschlag / Wohngeld have their own break-even points
         if draw(st.integers(0, 3)) == 0:
@@ -63,7 +67,7 @@ def strategy(date, ctx):
     return s()
 
 
-def build_sweep(df, who, top, npts, zero_other, wealth, rent):
+def build_sweep(df, who, top, npts, zero_other, wealth, rent, guide=None):
     base = df.copy()
     if zero_other:
         for c in ["eink_selbst_m", "kapitaleink_brutto_m", "eink_vermietung_m", "sonstig_eink_m", "priv_rente_m"]:
@@ -71,11 +75,21 @@ def build_sweep(df, who, top, npts, zero_other, wealth, rent):
         base["bruttolohn_m"] = 0.0
     wealth_sweep = isinstance(wealth, (tuple, list))
     base["vermögen_bedürft"] = 0.0 if wealth_sweep else wealth
+    second = None
+    if isinstance(rent, (tuple, list)):
+        rent, second_row, second_wage = rent
+        second = (int(second_row), float(second_wage))
     base["bruttokaltmiete_m_hh"] = rent
+    if second is not None:
+        base.loc[base.index[second[0]], "bruttolohn_m"] = second[1]
+        base.loc[base.index[second[0]], "bruttolohn_vorj_m"] = second[1]
+        base.loc[base.index[second[0]], "arbeitsstunden_w"] = 30.0
     n = len(base)
     pid = {int(p): i for i, p in enumerate(base["p_id"].tolist())}
     hhs = {int(h): i for i, h in enumerate(sorted(set(base["hh_id"].tolist())))}
     grid = np.round(np.linspace(0.0, top, npts), 2)
+    if wealth_sweep and guide is not None:
+        grid = np.round(np.linspace(max(guide - 600.0, 0.0), guide + 1400.0, npts), 2)
     parts = []
     for k, w in enumerate(grid):
         d = base.copy()
@@ -155,7 +169,19 @@ def check(sweep_df, date):
 
 def oracle(case, date, sh, ctx):
     pop, who, top, npts, zero_other, wealth, rent = case
-    sweep, grid, n = build_sweep(pop.df, who, top, npts, zero_other, wealth, rent)
+    guide = None
+    if isinstance(wealth, (tuple, list)):
+        # generator guidance only: put the wealth grid around the exemption the system itself
+        # computes for this household (a narrow band above it decides the wealth checks)
+        probe, _, _ = build_sweep(pop.df, who, 0.0, 1, zero_other, wealth, rent)
+        try:
+            pr = env.simulate(probe, date, targets=["kinderzuschl_vermög_freib_bg", "arbeitsl_geld_2_vermög_freib_bg"])
+            cands = sorted(set(float(v) for v in pr.to_numpy().ravel() if np.isfinite(v) and v > 0))
+            if cands:
+                guide = cands[(len(pop.df) + int(top)) % len(cands)]
+        except Exception:  # noqa: BLE001
+            guide = None
+    sweep, grid, n = build_sweep(pop.df, who, top, npts, zero_other, wealth, rent, guide)
     fails, res = check(sweep, date)
     seq = regimes(res, n, npts)
     sh.classes["regimes:" + ">".join(seq)] += 1
@@ -164,6 +190,8 @@ def oracle(case, date, sh, ctx):
         sh.nontrivial.add(f"{ctx['iso']}|{'>'.join(seq)}|{pop.archetypes[0]}")
     nbg = int(pd.Series(res["bg_id"].to_numpy()[:n]).nunique())
     sh.classes[f"needs-units-in-household={min(nbg, 3)}"] += 1
+    if isinstance(rent, (tuple, list)):
+        sh.classes["second-earner"] += 1
     sh.sample({"date": str(date), "archetype": pop.archetypes[0], "swept_person_row": who, "wage_grid": [float(grid[0]), float(grid[1]), "...", float(grid[-1])],
                "wealth": wealth, "rent": rent, "regime_sequence": seq, "household": popgen.brief(pop.df, max_rows=6)}, limit=3)
     for f in fails:
